@@ -48,8 +48,13 @@ class C11(F.Spec):
         return F.Case("probe%d" % i, ops, {"tags": ["kind:probe"], "kind": "probe"})
 
     def gen_scenario(self, rng, i, late=False):
-        ops = ["board relay2", "init", "adv 1000"]
         pin = 10          # input 1: plain monostable button on relay gpio 2, pull-up (idle level 1)
+        ops = ["board relay2", "init", "adv 1000"]
+        if not late and i % 2:
+            # the same button on one of the GPIOs 0..7 (the interrupt handler treats those pins specially when it clears what it
+            # did not serve): every edge still has to be seen
+            pin = rng.choice([4, 5, 7])
+            ops = ["board relay2", "inpin 1 %d" % pin, "inlevel %d 1" % pin, "init", "adv 1000"]
         ops.append("input %d 1" % pin)
         ops.append("adv 500")
         if late:
@@ -245,7 +250,7 @@ class C11(F.Spec):
             t = op.split()
             if t[0] == "adv":
                 now += int(t[1])
-            if t[0] == "input" and int(t[1]) == 10:
+            if t[0] == "input" and int(t[1]) == case.meta.get("pin", 10):
                 if t[2] == "0":
                     down_at = now
                 elif down_at is not None:
